@@ -50,23 +50,30 @@ def _c06(V, spec_id, group, base):
 
 
 def _why(spec_id, o, items, d, f, ci=False):
-    """coarse cause label used only to key known findings (never to suppress a check)"""
+    """coarse cause label used only to key known findings (never to suppress a check): the most specific known cause
+    present in the input wins (distinct aliases > one spelling in two cases with an invalid value > two cases, all valid)"""
     spec = dcspec.SPECS[spec_id]
     oo = dict(o, case_insensitive=ci)
-    label = None
+    rank = {'several-spellings-differing:distinct-aliases': 4, 'several-spellings-differing:case-only-some-invalid': 3,
+            'several-spellings-differing:case-only': 2, 'several-spellings-equal': 1, 'other': 0}
+    label = 'other'
     for fl in spec:
         sup = [(k, v) for k, v in items if dcspec.matches(fl, k, oo)]
         vals = [v for k, v in sup]
         if len(vals) > 1:
             if any(a != b for a in vals for b in vals):
-                # one spelling in two letter cases only, or genuinely different aliases
                 if len({k.lower() for k, v in sup}) == 1:
                     if all(dcspec.conv_int(v, fl['ge'])[0] == 'ok' for v in vals):
-                        return 'several-spellings-differing:case-only'
-                    return 'several-spellings-differing:case-only-some-invalid'
-                return 'several-spellings-differing:distinct-aliases'
-            label = 'several-spellings-equal'
-    return label or 'other'
+                        cand = 'several-spellings-differing:case-only'
+                    else:
+                        cand = 'several-spellings-differing:case-only-some-invalid'
+                else:
+                    cand = 'several-spellings-differing:distinct-aliases'
+            else:
+                cand = 'several-spellings-equal'
+            if rank[cand] > rank[label]:
+                label = cand
+    return label
 
 
 for _spec in dcspec.SPECS:
